@@ -3,6 +3,7 @@
 mod afio;
 mod obs;
 mod stat;
+mod store;
 mod util;
 
 fn main() {
@@ -14,6 +15,7 @@ fn main() {
     let a = util::Args::parse(&argv[2..]);
     match argv[1].as_str() {
         "static" => stat::cmd_static(&a),
+        "store" => store::cmd_store(&a),
         c => {
             eprintln!("unknown command {}", c);
             std::process::exit(2);
